@@ -18,6 +18,8 @@ import (
 
 // C09 - diff reports exactly the slots that differ.
 type DiffPair struct {
+	// SrcLink: the source path is a symbolic link to the real file
+	SrcLink bool   `json:"src_link,omitempty"`
 	Rel  string    `json:"rel"`
 	Src  *FileSpec `json:"src,omitempty"`  // nil: missing
 	Dest *FileSpec `json:"dest,omitempty"` // nil: missing
@@ -205,7 +207,18 @@ func runC09(c C09Case, ev *Evid) (fs []Finding) {
 		return c.Pairs[i].Rel
 	}
 	for i, p := range c.Pairs {
-		if p.Src != nil {
+		if p.Src != nil && p.SrcLink {
+			target := filepath.Join(dir, "linked", fmt.Sprintf("t%d.wsp", i))
+			if err := buildFile(target, *p.Src, now); err != nil {
+				add("setup", "%v", err)
+				return
+			}
+			os.MkdirAll(filepath.Dir(filepath.Join(srcBase, p.Rel)), 0755)
+			if err := os.Symlink(target, filepath.Join(srcBase, p.Rel)); err != nil {
+				add("setup", "%v", err)
+				return
+			}
+		} else if p.Src != nil {
 			if err := buildFile(filepath.Join(srcBase, p.Rel), *p.Src, now); err != nil {
 				add("setup", "%v", err)
 				return
@@ -529,6 +542,7 @@ func genC09(t *rapid.T) C09Case {
 		n := rapid.IntRange(2, 4).Draw(t, "files")
 		for i := 0; i < n; i++ {
 			c.Pairs = append(c.Pairs, genDiffPair(t, l, now, relNames[1+i], true))
+			c.Pairs[i].SrcLink = rapid.IntRange(0, 4).Draw(t, "srcLink") == 0
 		}
 		c.Pattern = rapid.SampledFrom([]string{"*/*.wsp", "m?/*.wsp", "m1/*.wsp"}).Draw(t, "pattern")
 		var kept []DiffPair
